@@ -105,7 +105,10 @@ PROB_B = {"doms": [[-2, 2], [0, 3], [0, 3]], "vars": [[0, 0], [1, 0], [2, 0], [1
 PROB_V = {"doms": [[0, 3], [0, 3], [-1, 2], [0, 2]], "vars": [[0, 0], [1, 0], [2, 0], [0, 1], [3, 0]],
           "cons": [["affine_leq", [0, 1, 2], [-1, 1, 1, 0]], ["affine_leq", [2, 1, 0], [1, -2, -1, -1]], ["alldifferent", [2, 1, 3], []],
                    ["count_eq", [2, 1, 4], [0]], ["max_eq", [0, 1, 4], []], ["affine_geq", [0, 1, 2], [1, 1, -1, 3]]], "tag": "V"}
-OPS = "ABPRGSV"
+OPS = "ABPRGSVL"
+# declaration lists owned by the caller and reused for every problem declared from them (a user who keeps the data of a model in
+# module-level lists and builds several problems from them): the fourth part of the probe and history operation L use them
+ALIAS_DECL = ([(0, 2), (0, 2)], [0, 1], [0, 0])
 
 
 def do_probe(shared_problem=None):
@@ -124,6 +127,13 @@ def do_probe(shared_problem=None):
         else:
             r = solver.minimize(2)
             res[name] = {"result": None if r is None else [int(v) for v in r], "stats": solver.get_statistics()}
+    from mc import contracts as K
+    from nucs.problems.problem import Problem
+
+    q = Problem(*ALIAS_DECL)
+    q.add_propagator(([0, 1], K.ALG["affine_leq"], [1, -1, 0]))
+    solver = BacktrackSolver(q, log_level="ERROR")
+    res["alias"] = {"solutions": [[int(v) for v in x] for x in solver.solve()], "stats": solver.get_statistics()}
     return res
 
 
@@ -151,6 +161,16 @@ def apply_op(op, state):
         sv = S.make_solver(state["problem"], PROBE, ("bc", "first", "max", None))
         it = sv.solve()
         next(it, None)
+    elif op == "L":
+        # another problem declared from the very list objects the probe's declaration uses, then extended and solved
+        from mc import contracts as K
+        from nucs.problems.problem import Problem
+        from nucs.solvers.backtrack_solver import BacktrackSolver
+
+        q = Problem(*ALIAS_DECL)
+        extra = q.add_variable((0, 1))
+        q.add_propagator(([0, extra], K.ALG["affine_leq"], [1, -1, 0]))
+        BacktrackSolver(q, log_level="ERROR").find_all()
     elif op == "V":
         S.make_solver(S.build(PROB_V), PROB_V, ("bc", "smallest", "mid", None)).find_all()
     elif op == "S":
